@@ -124,7 +124,9 @@ def validate_trace(spec, trace, tag, timeout=3600):
     """TLC validates one recorded trace against Trace<spec>.  Returns dict with
     mismatching line numbers (1-based), states, transitions."""
     metadir = os.path.join(WORK, "meta-" + tag)
-    cfgfile = os.path.join(SPEC, "cfg", "Trace.cfg")
+    cfgfile = os.path.join(SPEC, "cfg", spec + ".cfg")
+    if not os.path.exists(cfgfile):
+        cfgfile = os.path.join(SPEC, "cfg", "Trace.cfg")
     cmd = tlc_cmd(spec, cfgfile, metadir)
     r = run(cmd, timeout, env={"TRACE": trace}, cwd=WORK)
     out = r.stdout
